@@ -64,6 +64,30 @@ def kf_shared_constant_different_params(case, violation):
       t.get('share') is not None for sg in case['model']['subgraphs'] for t in sg['tensors'])
 
 
+def kf_shared_weight_different_axes(case, violation):
+  """One constant tensor is the weight operand of two ops whose kernels want
+  per-channel parameters along different axes (e.g. BATCH_MATMUL rhs: last
+  axis, FULLY_CONNECTED: axis 0)."""
+  from vq.ref import optable
+  for sg in case['model']['subgraphs']:
+    axes = {}
+    for n in sg['nodes']:
+      for pos, t in enumerate(n['in']):
+        if t < 0 or sg['tensors'][t]['kind'] != 'const' or sg['tensors'][t]['dtype'] != 'f32':
+          continue
+        if optable.role(n['op'], pos, True) != 'weight':
+          continue
+        if n['op'] == 'BATCH_MATMUL':
+          rank = len(sg['tensors'][t]['shape'])
+          ax = rank - 2 if n.get('opts', {}).get('adjY') else rank - 1
+        else:
+          ax = optable.WEIGHT_QDIM.get(n['op'])
+        axes.setdefault(t, set()).add(ax)
+    if any(len(a) >= 2 for a in axes.values()):
+      return True
+  return False
+
+
 def phases(tier):
   k = float(os.environ.get('VERIF_SCALE', '1'))
   big = tier == 'thorough'
